@@ -29,7 +29,7 @@ func (c Coverage2) Index(gi GlyphID) (int, bool) {
 
 	// check if gi is the start of a range, but only if sort.Search returned a valid result
 	if idx < num {
-		if rang := c.Ranges[idx]; gi == rang.StartGlyphID {
+		if rang := c.Ranges[idx]; gi == rang.StartGlyphID && gi <= rang.EndGlyphID {
 			return int(rang.StartCoverageIndex), true
 		}
 	}
@@ -45,9 +45,17 @@ func (c Coverage2) Index(gi GlyphID) (int, bool) {
 }
 
 func (cr Coverage2) Len() int {
+	// for valid tables, this is the sum of the ranges sizes; computing
+	// 1 + the maximum index makes sure the result is consistent with [Index]
+	// even for invalid tables
 	size := 0
 	for _, r := range cr.Ranges {
-		size += int(r.EndGlyphID - r.StartGlyphID + 1)
+		if r.EndGlyphID < r.StartGlyphID {
+			continue
+		}
+		if end := int(r.StartCoverageIndex) + int(r.EndGlyphID-r.StartGlyphID) + 1; end > size {
+			size = end
+		}
 	}
 	return size
 }
